@@ -250,12 +250,17 @@ class History:
         hist = self
 
         class HDS(EventDataset):
-            def __init__(self, name, item_type=None):
+            def __init__(self, name, item_type=None, named_root=False):
                 if item_type is None:
                     super().__init__()
                 else:
                     super().__init__(item_type)
                 self.name = name
+                if named_root:
+                    # the way real dataset classes say which data they stand for: an argument added to their root node
+                    import ast as _ast
+
+                    self.query_ast.args.append(_ast.Constant(value="root://site//" + name))
                 self.fail_next = False
                 self.gate = None
 
@@ -344,12 +349,15 @@ class History:
                 self.mode_counts["plain-function-executors-returning-awaitables"] = self.mode_counts.get("plain-function-executors-returning-awaitables", 0) + 1
             if cls is EmptyHDS:
                 self.mode_counts["falsy-dataset-objects"] = self.mode_counts.get("falsy-dataset-objects", 0) + 1
+            named = rnd.random() < 0.5
+            if named:
+                self.mode_counts["datasets-naming-their-data-in-the-root-node"] = self.mode_counts.get("datasets-naming-their-data-in-the-root-node", 0) + 1
             if k < typed_share * 0.7:
-                ds, kind = cls(f"ds{i}", self.model["Event"]), "Event"
+                ds, kind = cls(f"ds{i}", self.model["Event"], named_root=named), "Event"
             elif k < typed_share:
-                ds, kind = cls(f"ds{i}", self.model["PlainEvent"]), "Event"
+                ds, kind = cls(f"ds{i}", self.model["PlainEvent"], named_root=named), "Event"
             else:
-                ds, kind = cls(f"ds{i}"), "uEvent"
+                ds, kind = cls(f"ds{i}", named_root=named), "uEvent"
                 ds.untyped = True
             self.datasets.append(ds)
             for m in monitors:
